@@ -118,6 +118,9 @@ def walk(c: dict, pools: dict, max_transitions=10**7, body_max=2, integ="generic
             k0 = key_of(st0, c, back)
             for ops in calls:
                 s2 = copy.deepcopy(st0)
+                # the remembered terms stay the objects the earlier call handed in (a deep copy of a singleton such as the generic DefaultGraph
+                # would no longer be equal to it); the terms of THIS call are fresh objects all the same
+                s2.repeated_terms = list(st0.repeated_terms)
                 before = len(s2.flow)
                 frames = []
                 raised = None
